@@ -1,18 +1,23 @@
-"""SMT back end. The path condition is kept in Python. Queries go first to a persistent `cvc5 --incremental` process
-(short per-query limit; removes the process start-up cost that dominates thousands of small queries); a query it cannot
-answer in that limit (string-heavy ones stall in incremental mode) is re-run one-shot with the full time limit.
-`unknown` and any `(error` line are never treated as unsat."""
+"""SMT back end. The path condition is kept in Python as a list of assertions with their free symbols.
+Every query is reduced to its *independent slice* (the assertions transitively sharing a symbol with the queried
+formula - the constraint-independence optimisation of KLEE): a path condition is the conjunction of slices over disjoint
+symbols, so `slice /\\ q` unsat  =>  `pc /\\ q` unsat, and if the rest of the path condition is satisfiable (it is, unless a
+solver `unknown` let an infeasible branch through - then only an infeasible path is explored, never a wrong verdict, because
+models for violations are taken from the *full* path condition) `slice /\\ q` sat => `pc /\\ q` sat.
+Slices recur across paths, so results are cached by slice text. Queries go to a persistent cvc5 process that is `(reset)`
+between queries (no start-up cost); a query it cannot answer within the fast limit is re-run one-shot by cvc5 with the full
+limit and then by z3 (5.1). `unknown` and any `(error` line are never treated as unsat."""
 import subprocess, time, re, os, hashlib, select
 
 CVC5 = ["cvc5", "--lang", "smt2", "--strings-exp"]
 HEADER = "(set-logic ALL)\n(set-option :produce-models true)\n"
+SYM = re.compile(r"[A-Za-z_][A-Za-z0-9_]*_\d+")
 
-class Inc:
-    """persistent incremental cvc5"""
+class Proc:
+    """persistent cvc5, reset between queries"""
     def __init__(self, tlimit_ms):
         self.p = subprocess.Popen(CVC5 + ["--incremental", "--tlimit-per=%d" % tlimit_ms], stdin=subprocess.PIPE, stdout=subprocess.PIPE, stderr=subprocess.STDOUT, text=True, bufsize=1)
-        self.tl = tlimit_ms
-        self.send(HEADER); self.send("(push 1)")
+        self.n = 0
     def send(self, s): self.p.stdin.write(s + "\n"); self.p.stdin.flush()
     def readline(self, timeout):
         r, _, _ = select.select([self.p.stdout], [], [], timeout)
@@ -24,67 +29,71 @@ class Inc:
         except Exception: pass
 
 class Solver:
-    def __init__(self, tlimit_ms=5000, log_dir=None, fast_ms=400):
-        self.items = []; self.hash = 0
-        self.queries = 0; self.time = 0.0; self.cache = {}; self.stats = {"sat": 0, "unsat": 0, "unknown": 0, "cached": 0, "oneshot": 0}
-        self.tlimit = tlimit_ms; self.log_dir = log_dir; self.declared = set(); self.fast_ms = fast_ms
-        self.inc = None; self.sent = 0
+    def __init__(self, tlimit_ms=5000, log_dir=None, fast_ms=500):
+        self.asserts = []       # (text, frozenset(symbols))
+        self.sorts = {}         # symbol -> sort
+        self.queries = 0; self.time = 0.0
+        self.cache = {}; self.stats = {"sat": 0, "unsat": 0, "unknown": 0, "cached": 0, "oneshot": 0}
+        self.tlimit = tlimit_ms; self.log_dir = log_dir; self.fast_ms = fast_ms
+        self.proc = None
     # --- path condition
     def reset(self):
-        self.items = []; self.declared = set(); self.hash = 0
-        if self.inc is not None and self.inc.alive():
-            try: self.inc.send("(pop 1)\n(push 1)")
-            except Exception: self.inc.kill(); self.inc = None
-        self.sent = 0
-    def declare(self, name, sort):
-        if name not in self.declared:
-            self.declared.add(name); self._add("(declare-fun %s () %s)" % (name, sort))
-    def add(self, t): self._add("(assert %s)" % t)
-    def _add(self, item):
-        self.items.append(item); self.hash = hash((self.hash, item))
-    def script(self, extra=(), tail=""):
-        return HEADER + "\n".join(self.items) + "\n" + "\n".join("(assert %s)" % a for a in extra) + "\n(check-sat)\n" + tail
-    # --- incremental attempt
-    def _inc_query(self, extra, names=None):
-        """returns (status, model_text|None); status in sat/unsat/unknown"""
+        self.asserts = []; self.sorts = {}
+    def declare(self, name, sort): self.sorts[name] = sort
+    def syms(self, t): return frozenset(s for s in SYM.findall(t) if s in self.sorts)
+    def add(self, t): self.asserts.append((t, self.syms(t)))
+    def slice_for(self, extra):
+        """assertions transitively sharing symbols with `extra` (in original order)"""
+        want = set()
+        for e in extra: want |= self.syms(e)
+        if not want: return [], want
+        chosen = [False] * len(self.asserts)
+        changed = True
+        while changed:
+            changed = False
+            for i, (t, ss) in enumerate(self.asserts):
+                if not chosen[i] and ss and (ss & want):
+                    chosen[i] = True
+                    if not ss <= want: want |= ss
+                    changed = True
+        return [self.asserts[i][0] for i in range(len(self.asserts)) if chosen[i]], want
+    def script_of(self, asserts, syms, extra, tail=""):
+        decls = "\n".join("(declare-fun %s () %s)" % (s, self.sorts[s]) for s in sorted(syms))
+        return decls + "\n" + "\n".join("(assert %s)" % a for a in asserts) + "\n" + "\n".join("(assert %s)" % a for a in extra) + "\n(check-sat)\n" + tail
+    def full_script(self, extra=(), tail=""):
+        return HEADER + self.script_of([a for a, _ in self.asserts], set(self.sorts), extra, tail)
+    # --- execution
+    def _fast(self, body, names=None):
         try:
-            if self.inc is None or not self.inc.alive():
-                self.inc = Inc(self.fast_ms); self.sent = 0
-            inc = self.inc
-            if self.sent < len(self.items):
-                inc.send("\n".join(self.items[self.sent:])); self.sent = len(self.items)
-            q = "(push 1)\n" + "\n".join("(assert %s)" % a for a in extra) + "\n(check-sat)"
-            inc.send(q)
-            ln = inc.readline(self.fast_ms / 1000.0 + 5)
+            if self.proc is None or not self.proc.alive() or self.proc.n > 4000:
+                if self.proc: self.proc.kill()
+                self.proc = Proc(self.fast_ms)
+            pr = self.proc; pr.n += 1
+            pr.send("(reset)\n" + HEADER + body)
+            ln = pr.readline(self.fast_ms / 1000.0 + 5)
             if ln is None:
-                inc.kill(); self.inc = None; return "unknown", None
+                pr.kill(); self.proc = None; return "unknown", None
             st = ln.strip()
             if st not in ("sat", "unsat"):
-                # error or unknown: drain nothing more (one line per check-sat), resync by restarting on errors
-                if st.startswith("(error") or st == "":
-                    inc.kill(); self.inc = None; return "unknown", None
-                inc.send("(pop 1)"); return "unknown", None
-            mt = None
-            if st == "sat" and names:
-                inc.send("(get-value (%s))" % " ".join(names))
-                buf = ""; depth = 0
-                while True:
-                    l2 = inc.readline(10)
-                    if l2 is None: inc.kill(); self.inc = None; return "unknown", None
-                    buf += l2; depth += l2.count("(") - l2.count(")")
-                    if depth <= 0 and buf.strip(): break
-                if "(error" in buf: inc.kill(); self.inc = None; return "unknown", None
-                mt = buf
-            inc.send("(pop 1)")
-            return st, mt
+                if st.startswith("(error") or st == "": pr.kill(); self.proc = None
+                return "unknown", None
+            return st, None
         except (BrokenPipeError, OSError, ValueError):
-            if self.inc: self.inc.kill()
-            self.inc = None
+            if self.proc: self.proc.kill()
+            self.proc = None
             return "unknown", None
     def _oneshot(self, script):
-        """portfolio for queries the incremental process could not answer quickly: z3 (new) first, then cvc5 with the full limit"""
         self.stats["oneshot"] += 1
         t0 = time.time()
+        try:
+            p = subprocess.run(CVC5 + ["--tlimit=%d" % self.tlimit], input=script, capture_output=True, text=True, timeout=self.tlimit / 1000.0 + 10)
+            first = p.stdout.strip().split("\n")[0] if p.stdout.strip() else ""
+            if first in ("sat", "unsat") and "(error" not in p.stdout:
+                self.stats["cvc5_1"] = self.stats.get("cvc5_1", 0) + 1; self.stats["cvc5_1_s"] = self.stats.get("cvc5_1_s", 0) + time.time() - t0
+                return p.stdout
+        except subprocess.TimeoutExpired:
+            pass
+        self.stats["cvc5_1_fail_s"] = self.stats.get("cvc5_1_fail_s", 0) + time.time() - t0; t0 = time.time()
         try:
             p = subprocess.run(["z3-new", "-in", "-T:%d" % max(1, self.tlimit // 2000)], input=script, capture_output=True, text=True, timeout=self.tlimit / 2000.0 + 5)
             first = p.stdout.strip().split("\n")[0] if p.stdout.strip() else ""
@@ -93,48 +102,59 @@ class Solver:
                 return p.stdout
         except (subprocess.TimeoutExpired, FileNotFoundError):
             pass
-        self.stats["z3_fail_s"] = self.stats.get("z3_fail_s", 0) + time.time() - t0; t1 = time.time()
-        try:
-            p = subprocess.run(CVC5 + ["--tlimit=%d" % self.tlimit], input=script, capture_output=True, text=True, timeout=self.tlimit / 1000.0 + 10)
-            return p.stdout
-        except subprocess.TimeoutExpired:
-            return "unknown\n"
+        self.stats["z3_fail_s"] = self.stats.get("z3_fail_s", 0) + time.time() - t0
+        return "unknown\n"
     def check(self, extra=()):
-        """sat / unsat / unknown for path condition + extra"""
+        """sat / unsat / unknown for path condition + extra (decided on the independent slice)"""
         self.queries += 1
-        key = (self.hash, tuple(extra))
-        r = self.cache.get(key)
+        extra = tuple(extra)
+        if extra:
+            asserts, syms = self.slice_for(extra)
+        else:
+            asserts, syms = [a for a, _ in self.asserts], set(self.sorts)
+        body = self.script_of(asserts, syms, extra)
+        r = self.cache.get(body)
         if r is not None:
             self.stats["cached"] += 1; return r
         t = time.time()
-        st, _ = self._inc_query(extra)
-        self.stats["inc_s"] = self.stats.get("inc_s", 0) + time.time() - t
+        st, _ = self._fast(body)
+        self.stats["fast_s"] = self.stats.get("fast_s", 0) + time.time() - t
         if st == "unknown":
-            s = self.script(extra)
-            out = self._oneshot(s)
+            out = self._oneshot(HEADER + body)
             first = out.strip().split("\n")[0] if out.strip() else "unknown"
             if "(error" in out or first not in ("sat", "unsat"): first = "unknown"
             st = first
             if self.log_dir and st == "unknown":
                 os.makedirs(self.log_dir, exist_ok=True)
-                open(os.path.join(self.log_dir, "unknown_%s.smt2" % hashlib.sha1(s.encode()).hexdigest()[:10]), "w").write(s)
+                open(os.path.join(self.log_dir, "unknown_%s.smt2" % hashlib.sha1(body.encode()).hexdigest()[:10]), "w").write(HEADER + body)
         self.time += time.time() - t
-        self.cache[key] = st; self.stats[st] += 1
+        self.cache[body] = st; self.stats[st] += 1
         return st
     def model(self, names, extra=()):
-        """returns (status, {name: python value}) for path condition + extra"""
+        """returns (status, {name: python value}) for the FULL path condition + extra"""
         if not names:
             return self.check(extra), {}
         self.queries += 1
         t = time.time()
-        st, mt = self._inc_query(extra, names)
-        if st == "unknown":
-            out = self._oneshot(self.script(extra, "(get-value (%s))\n" % " ".join(names)))
-            lines = out.strip().split("\n")
-            first = lines[0] if lines else "unknown"
-            if first == "sat" and "(error" not in out: st, mt = "sat", " ".join(lines[1:])
-            elif first == "unsat": st = "unsat"
-            else: st = "unknown"
+        script = self.full_script(extra, "(get-value (%s))\n" % " ".join(names))
+        st = "unknown"; mt = None
+        try:
+            p = subprocess.run(CVC5 + ["--tlimit=%d" % self.tlimit], input=script, capture_output=True, text=True, timeout=self.tlimit / 1000.0 + 10)
+            out = p.stdout
+        except subprocess.TimeoutExpired:
+            out = "unknown\n"
+        lines = out.strip().split("\n")
+        first = lines[0] if lines else "unknown"
+        if first == "sat" and "(error" not in out: st, mt = "sat", " ".join(lines[1:])
+        elif first == "unsat": st = "unsat"
+        else:
+            try:
+                p = subprocess.run(["z3-new", "-in", "-T:%d" % max(1, self.tlimit // 1000)], input=script, capture_output=True, text=True, timeout=self.tlimit / 1000.0 + 5)
+                lines = p.stdout.strip().split("\n"); first = lines[0] if lines else ""
+                if first == "sat" and "(error" not in p.stdout: st, mt = "sat", " ".join(lines[1:])
+                elif first == "unsat": st = "unsat"
+            except (subprocess.TimeoutExpired, FileNotFoundError):
+                pass
         self.time += time.time() - t
         if st != "sat": return st, {}
         return "sat", parse_model(mt or "")
